@@ -75,6 +75,8 @@ impl egg::CostFunction<Expr> for CostFn<'_> {
             // each operator has a cost of 0.1
             _ => enode.fold(0.1, |sum, id| sum + costs(&id)),
         };
+        // (a cost stays finite too: `0.0 * inf` would be NaN)
+        let c = c.min(f32::MAX);
         debug!(
             "{id}\t{enode:?}\tcost={c}, rows={}, cols={}",
             rows(id),
